@@ -313,6 +313,20 @@ func runC17(env *Env, data map[string]any) *Outcome {
 		} else if !lay.ok && impl != "uncloseable" {
 			addF(o, Finding{Kind: "D", What: "total --now (" + lay.name + ") must refuse the open range that cannot be closed", Impl: impl, Input: in})
 		}
+		// `klog today --now` evaluates the same records at the same instant
+		evals++
+		td := runCLI(env, CLIOpts{Now: mkTime(now[0], now[1], now[2], now[3], now[4])}, "today", "--now", "--decimal", "--no-style", "--no-warn", file)
+		if td.Panic != "" {
+			addF(o, Finding{Kind: "D", What: "klog today --now crashes (" + lay.name + "): " + td.Panic, Input: in})
+		} else if res.Panic == "" && (td.Code == 0) != (res.Code == 0) {
+			addF(o, Finding{Kind: "D", What: fmt.Sprintf("`klog today --now` (%s) exits %d although `klog total --now` exits %d", lay.name, td.Code, res.Code), Impl: short(td.Stdout+td.Err, 300), Input: in})
+		} else if td.Code == 0 && strings.HasPrefix(impl, "total ") {
+			if _, footer, ok := parseTable(td.Stdout); ok && len(footer) >= 1 {
+				if at, ok := cellInt(footer[0]); ok && fmt.Sprintf("total %d", at) != impl {
+					addF(o, Finding{Kind: "D", What: fmt.Sprintf("`klog today --now` (%s): the total of all records is %d, `klog total --now` says %s", lay.name, at, impl), Impl: short(td.Stdout, 400), Input: in})
+				}
+			}
+		}
 	}
 	o.Evals = evals
 	o.Sample = map[string]any{"day": today.String(), "minute": fmt.Sprintf("%02d:%02d", minute/60, minute%60), "cli_runs": evals}
